@@ -32,7 +32,7 @@ ASSUMPTIONS = [
     "a 'service pass' is one call of serviceTxPkts(); in the once-pass variant it is m consecutive calls of serviceTxPktsOnce() where m = packets pending at the start of the pass (enough calls to serve every queued packet once)",
     "'sent' = handler.send(data, ha) returned; a send that raised one of the transient errnos listed in GramStack._serviceOneTxPkt sent nothing",
     "a failing destination 'blocks' another one when a packet queued for a destination that does not fail in a pass is not sent in that pass",
-    "handler double implements reopen/close/opened/ha/send/receive only; all packets are queued with stack.transmit(pkt, ha) before the first pass",
+    "handler double implements reopen/close/opened/ha/send/receive only; all packets are queued with stack.transmit(pkt, ha) before the first pass, each with its own address tuple object (equal per destination)",
 ]
 META = {
     "level": LEVEL,
@@ -109,7 +109,8 @@ def run_case(variant, q, masks):
     payload = [b"pkt-%d-to-%d" % (i, d) for i, d in enumerate(q)]
     index = {payload[i]: i for i in range(n)}
     for i, d in enumerate(q):
-        stack.transmit(packeting.Packet(stack=stack, packed=payload[i]), DESTS[d])
+        # every packet carries its own (equal, not identical) address tuple, as addresses taken from recvfrom() do
+        stack.transmit(packeting.Packet(stack=stack, packed=payload[i]), (DESTS[d][0], DESTS[d][1]))
     if len(stack.txPkts) != n:
         return [("queueing", "transmit() of %d packets left %d entries in .txPkts" % (n, len(stack.txPkts)))], False, []
     sent = [False] * n
